@@ -14,7 +14,9 @@ by the Python reader `c05_ninja`, then the reference executor `c05_exec` runs th
 The oracle never consults Lean.  The Lean side (`MesonModel/Graph`, theorems in `Props/C05`) proves that (a) for all steps
 implies (b) for *all* schedules, and the converse; here it re-parses the same `build.ninja` with the C04 manifest model,
 recomputes every step's ancestor set and re-validates every schedule the executor used (`ctx.disagreement` on any
-difference).
+difference).  Projects of the producer-form matrix (`c05_forms`) carry their abstract target table; for them the order-only
+inputs of every compile statement are compared with the set the Lean derivation model (`MesonModel/Graph/HeaderDeps`,
+theorem `declared_order_only_covers_may_read`) derives from the table (`derivation_crosscheck`).
 """
 from __future__ import annotations
 
@@ -31,6 +33,7 @@ from . import common, projgen
 from . import c05_exec as X
 from . import c05_gen
 from . import c05_depmx
+from . import c05_forms
 from .common import Ctx, enc
 
 ID = 'C05'
@@ -69,6 +72,9 @@ PINS = [
     'mesonbuild.build:BuildTarget.get_generated_sources',
     'mesonbuild.build:CustomTarget.get_dependencies',
     'mesonbuild.build:CustomTarget.get_target_dependencies',
+    'mesonbuild.build:BuildTarget.process_sourcelist',
+    'mesonbuild.backend.backends:Backend.get_target_generated_dir',
+    'mesonbuild.backend.ninjabackend:NinjaBackend.get_target_generated_sources',
 ]
 TRUSTED = [
     'the tools run by the steps (gcc, ld, ar, python) are deterministic functions of the contents of the files they open; '
@@ -88,7 +94,10 @@ EXPLANATION = (
     'per project by really executing each step of the real build.ninja hermetically (only configure-time files + ancestors\' '
     'outputs; strace names what it looked for) and by executing whole adversarial schedules; the quantifier over projects is '
     'sampled (fixed corpus of generated-header cases + random projects whose declared dependencies are all load-bearing + '
-    'projgen projects), the quantifier over schedules is discharged by the theorems.')
+    'projgen projects + the producer-form matrix), the quantifier over schedules is discharged by the theorems. For compile '
+    'statements the hypothesis is in addition proved for all target tables of the modelled fragment: the order-only derivation '
+    '(process_sourcelist, add_deps, get_generated_headers, the header_deps loop) is a Lean model shown to declare every generated '
+    'header a compile statement may read, and its output is compared with the real build.ninja on every table-carrying project.')
 
 
 # ---------------------------------------------------------------- jobs
@@ -220,6 +229,27 @@ def make_jobs(ctx: Ctx) -> T.List[dict]:
         jobs.append({'id': f'mx/{prov}/{reach}', 'files': spec['files'], 'args': [], 'seed': rng.getrandbits(40), 'n_random': 0,
                      'cells': spec['cells'], 'unknown_methods': spec['unknown_methods'],
                      'features': ['depmx:provenance:' + prov, 'depmx:reach:' + reach]})
+    # producer-form matrix: several outputs of one producer reaching one consumer in different forms / by different routes
+    # (every ordered pair of references of a custom target; generator lists; libraries with generator-made headers reached
+    # through the link closure); each project carries its abstract target table for the derivation tie
+    lay2, lay3 = rng.choice(['ch', 'hc']), rng.choice(['hhc', 'chh'])
+    form_jobs: T.List[T.Tuple[str, dict, T.List[str]]] = []
+    if ctx.deep:
+        for lay in c05_forms.LAYOUTS:
+            sub = random.Random(rng.getrandbits(48))
+            form_jobs.append((lay, c05_forms.gen_layout(sub, lay, n_long=6, generator_cells=(lay == lay2), extra=0.5), []))
+        for k, v in enumerate([['-Dunity=on'], ['-Ddefault_library=both'], ['-Dunity=on', '-Dunity_size=2'], [], ['-Dbuildtype=release'], []]):
+            sub = random.Random(rng.getrandbits(48))
+            form_jobs.append((f'random/{k}', c05_forms.gen_random(sub, 14), v))
+    else:
+        sub = random.Random(rng.getrandbits(48))
+        form_jobs.append((lay2, c05_forms.gen_layout(sub, lay2, generator_cells=True), []))
+        sub = random.Random(rng.getrandbits(48))
+        form_jobs.append((lay3, c05_forms.gen_layout(sub, lay3, singles=False), []))
+    for name, spec, v in form_jobs:
+        jobs.append({'id': f'forms/{name}', 'files': spec['files'], 'args': v, 'seed': rng.getrandbits(40), 'n_random': 0,
+                     'jobs': 1 if not ctx.deep else 4, 'form_cells': spec['form_cells'], 'table': spec['table'],
+                     'features': spec['features']})
     for k in range(ctx.scale(0, 10)):
         sub = random.Random(rng.getrandbits(48))
         spec = c05_depmx.gen_random(sub, 16)
@@ -309,6 +339,56 @@ def lean_crosscheck(ctx: Ctx, results: T.List[dict]) -> None:
                               'lean': f.get('valid'), 'python': ''.join('1' if v else '0' for v in want)})
 
 
+def derivation_crosscheck(ctx: Ctx, jobs: T.List[dict], results: T.List[dict]) -> None:
+    """the order-only derivation (Lean: MesonModel/Graph/HeaderDeps, theorem declared_order_only_covers_may_read) against the
+    real interpreter + NinjaBackend: for every target of a project that comes with its abstract target table, the order-only
+    inputs of each of its compile statements in the real build.ninja must be exactly the set the model derives"""
+    todo = [(j, r) for j, r in zip(jobs, results) if j.get('table') and r.get('ninja') and not j['id'].startswith('control/')
+            and '-Dunity=on' not in j.get('args', []) and '--layout=flat' not in j.get('args', [])]
+    if not ctx.model_available or not todo:
+        return
+    lines = []
+    for j, _r in todo:
+        line, ok = c05_forms.encode_table(j['table'], enc)
+        if not ok:
+            ctx.obligation_failed('file-name classes', 'compilers.is_header() disagrees with the source/object/library/header '
+                                  'cascade of generate_target on a generated file name of ' + j['id'])
+        lines.append(line)
+    answers = ctx.driver('graph', lines)
+    for (j, r), ans in zip(todo, answers):
+        f = ans.split('|')
+        if f[0] != 'OK' or len(f) != 3:
+            ctx.disagreement({'project': j['id'], 'what': 'the derivation model rejects the target table', 'answer': ans[:200]})
+            continue
+        if f[1] != 'wf=1':
+            ctx.obligation_failed('target table well-formed', f"{j['id']}: the driver reports {f[1]} (hypothesis WF of "
+                                  'declared_order_only_covers_may_read)')
+        model = [set(common.dec(x) for x in t.split(',') if x.strip()) for t in f[2].split(';')]
+        try:
+            g = X.BuildGraph(r['ninja'])
+        except Exception as e:      # the executor has already reported what it thinks of such a file
+            ctx.disagreement({'project': j['id'], 'what': 'build.ninja unreadable for the derivation tie', 'error': repr(e)[:200]})
+            continue
+        for k, t in enumerate(j['table']['tgts']):
+            comp = [e for e in g.edges if e['rule'].endswith('_COMPILER') and any(o.startswith(t['priv'] + '/') for o in e['outs'])]
+            ctx.count()
+            if not comp or k >= len(model):
+                ctx.disagreement({'project': j['id'], 'what': 'no compile statement found for a target of the table',
+                                  'target': t['name'], 'private_dir': t['priv']})
+                continue
+            ctx.tag('derivation:targets-compared')
+            ctx.tag('derivation:order-only-size-%d' % min(len(model[k]), 4))
+            for e in comp:
+                ctx.tag('derivation:compile-statements-compared')
+                real = set(e['order_ins'])
+                if real != model[k]:
+                    ctx.disagreement({'project': j['id'], 'what': 'order-only inputs of a compile statement differ (Lean derivation '
+                                      'model vs real backend)', 'target': t['name'], 'statement': e['outs'],
+                                      'model': sorted(model[k]), 'real': sorted(real),
+                                      'job': {x: j[x] for x in ('id', 'files', 'args', 'seed', 'n_random')}})
+                    break
+
+
 # ---------------------------------------------------------------- run
 
 def absorb(ctx: Ctx, job: dict, r: dict) -> None:
@@ -329,9 +409,9 @@ def absorb(ctx: Ctx, job: dict, r: dict) -> None:
     ctx.tag('project:' + r.get('status', '?'))
     if r.get('status') != 'ok':
         ctx.notes.append(f"{job['id']}: {r.get('status')} {str(r.get('broken') or r.get('out') or '')[:300]}")
-        if r.get('status') == 'configure-failed' and job['id'].split('/')[0] in ('corpus', 'gen', 'mx'):
+        if r.get('status') == 'configure-failed' and job['id'].split('/')[0] in ('corpus', 'gen', 'mx', 'forms'):
             ctx.tag('valid-by-construction-project-did-not-configure')
-        if r.get('status') == 'broken' and job['id'].split('/')[0] in ('corpus', 'gen', 'mx'):
+        if r.get('status') == 'broken' and job['id'].split('/')[0] in ('corpus', 'gen', 'mx', 'forms'):
             # these projects are valid by construction (and build under the default options): a step that fails under
             # *every* schedule violates "any valid schedule succeeds" just as well
             d = r.get('broken_detail', {})
@@ -365,6 +445,18 @@ def absorb(ctx: Ctx, job: dict, r: dict) -> None:
             ctx.tag('depmx:step:' + st[0])
         ctx.tag('depmx:chain-length:%d' % len(c['chain']))
         ctx.tag('depmx:consumer-includes-header' if c['includes_header'] else 'depmx:consumer-must-not-include-header')
+    for c in job.get('form_cells', []):
+        ctx.tag('forms:cells')
+        ctx.tag('forms:consumer:' + c['kind'])
+        ctx.tag('forms:sequence-length:%d' % len(c['sequence']))
+        for ref, route in c['sequence']:
+            ctx.tag('forms:route:' + str(route))
+            ctx.tag('forms:reference:' + ('whole' if ref == 'W' else 'index' if isinstance(ref, int) else str(ref).split('-of-')[0]
+                                          if c['producer'] == 'generator' else 'library'))
+        refs = [x[0] for x in c['sequence']]
+        if len(refs) >= 2 and c['producer'].startswith('custom_target'):
+            ctx.tag('forms:mix:' + ('same-reference-repeated' if len(set(map(str, refs))) == 1 else
+                                    'index-and-whole' if 'W' in refs else 'different-indexes'))
     for m in job.get('unknown_methods', []):
         ctx.tag('depmx:method-without-semantics-entry:' + m)
         note = f'dependency method {m!r} is enumerated from DependencyHolder but has no entry in c05_depmx.SEMANTICS: assumed to keep everything'
@@ -374,7 +466,7 @@ def absorb(ctx: Ctx, job: dict, r: dict) -> None:
         case = {'project': job['id'], 'finding': f['detail'],
                 'job': {k: job[k] for k in ('id', 'files', 'args', 'seed', 'n_random')}}
         step = str(f['detail'].get('step', ''))
-        for c in job.get('cells', []):
+        for c in job.get('cells', []) + job.get('form_cells', []):
             if c['consumer'] + '.' in step or step.endswith(c['consumer']):
                 case['cell'] = c
                 break
@@ -414,6 +506,7 @@ def run(ctx: Ctx) -> None:
     for job, r in zip(jobs, results):
         absorb(ctx, job, r)
     lean_crosscheck(ctx, results)
+    derivation_crosscheck(ctx, jobs, results)
     ctx.extra['programs'] = len(jobs)
     ctx.extra['steps_replayed'] = ctx.dist.get('hermetic-replays', 0)
 
